@@ -128,7 +128,7 @@ func (c *Ctx) evalMod(env *SpecEnv, x ast.Expr, out *[]modEntry) {
 		switch b := base.(type) {
 		case SliceV:
 			el := b.Ty.Underlying().(*types.Slice).Elem()
-			c.elemEntries(b.Arr, el, all, func() string { return c.idxAdd(b.Off, env.idxTerm(env.eval(v.Index))) }, out)
+			c.elemEntries(b.Arr, el, all, func() string { return c.elemIdx(b.Off, env.idxTerm(env.eval(v.Index))) }, out)
 			return
 		case Scalar:
 			if mt, ok := b.Ty.Underlying().(*types.Map); ok {
@@ -788,6 +788,9 @@ func (c *Ctx) applyContractAt(s *State, fr *Frame, site string, pos token.Pos, f
 		}
 	}
 	for _, e := range fc.Ensures {
+		if strings.HasPrefix(e.Label, "bv:") && !c.ar.bv {
+			continue // bit-level clause: not usable (and not needed) by callers verified with integer arithmetic
+		}
 		c.assume(s, env2.evalBool(e.Expr))
 	}
 	return res
@@ -899,7 +902,7 @@ func (c *Ctx) builtin(s *State, fr *Frame, x ssa.Instruction, name string, args 
 			return Scalar{a.Len, c.ar.idxSort(), intT}
 		case Scalar:
 			if a.S == SStr {
-				n := c.bind(s, "strlen", c.ar.idxSort(), c.intFromMath(fmt.Sprintf("(strlen %s)", a.T)))
+				n := c.bind(s, "strlen", c.ar.idxSort(), c.strLen(a.T))
 				return Scalar{n, c.ar.idxSort(), intT}
 			}
 			if mt, ok := a.Ty.Underlying().(*types.Map); ok {
@@ -988,7 +991,7 @@ func (c *Ctx) appendBuiltin(s *State, fr *Frame, x ssa.Instruction, args []Val, 
 	case Scalar:
 		if a.S == SStr {
 			srcIsString = true
-			srcLen = c.bind(s, "strlen", c.ar.idxSort(), c.intFromMath(fmt.Sprintf("(strlen %s)", a.T)))
+			srcLen = c.bind(s, "strlen", c.ar.idxSort(), c.strLen(a.T))
 		} else {
 			unsup("append of %T", a)
 		}
@@ -1097,7 +1100,7 @@ func (c *Ctx) copyBuiltin(s *State, fr *Frame, x ssa.Instruction, args []Val, ra
 		srcLen = a.Len
 	case Scalar:
 		isStr = true
-		srcLen = c.bind(s, "strlen", c.ar.idxSort(), c.intFromMath(fmt.Sprintf("(strlen %s)", a.T)))
+		srcLen = c.bind(s, "strlen", c.ar.idxSort(), c.strLen(a.T))
 	}
 	n := c.bind(s, "copyn", c.ar.idxSort(), fmt.Sprintf("(ite %s %s %s)", c.idxCmp(token.LEQ, dst.Len, srcLen), dst.Len, srcLen))
 	if isAggregate(el) {
@@ -1440,7 +1443,7 @@ func (c *Ctx) lookup(s *State, fr *Frame, x *ssa.Lookup) {
 	// string index
 	sv := c.val(s, x.X).(Scalar)
 	i := c.toIdx(c.val(s, x.Index).(Scalar))
-	c.oblige(s, "safe:index", c.siteOf(x, "index"), c.inBounds(i, c.intFromMath(fmt.Sprintf("(strlen %s)", sv.T))), "string index in range", x.Pos())
+	c.oblige(s, "safe:index", c.siteOf(x, "index"), c.inBounds(i, c.strLen(sv.T)), "string index in range", x.Pos())
 	fr.regs[x] = c.freshVal(s, "strbyte", x.Type())
 }
 
